@@ -228,6 +228,36 @@ theorem C04_cancel_in_queue_or_noted (s : Sys) (t : Nat) (v : String) (sp : Span
     · rename_i h; exact List.contains_iff_mem.mp h
     · exact List.mem_cons_self
 
+/-- the collector never adds a note: after processing, every note left was there before, and none of them belongs to a
+    trace whose commit this cycle handled (C08: the notes are bounded by the cancelled traces still in flight) -/
+theorem C08_notes_only_shrink_in_cycles (s : Sys) (kept : List (Nat × Ring Cmd)) (buf buf2 : List Cmd) :
+    ∀ id ∈ (s.finishCycleP kept buf buf2).1.parkedCancels,
+      id ∈ s.parkedCancels ∧ (s.coll.hasReporter = true → id ∉ s.deferred ++ commitsOf buf) := by
+  intro id hid
+  unfold Sys.finishCycleP at hid
+  split at hid
+  · rename_i hr
+    have h : id ∈ (takeParked (s.deferred ++ commitsOf buf) s.parkedCancels).2 := hid
+    have := takeParked_rest _ _ id h
+    exact ⟨this.1, fun _ => this.2⟩
+  · rename_i hr
+    have h : id ∈ s.parkedCancels := hid
+    exact ⟨h, fun e => absurd e hr⟩
+
+/-- `cancel()` adds at most the note of the trace it cancels -/
+theorem C08_cancel_notes_only_its_trace (s : Sys) (t cid : Nat) :
+    ∀ id ∈ (s.noteParked t cid).parkedCancels, id ∈ s.parkedCancels ∨ id = cid := by
+  intro id hid
+  unfold Sys.noteParked at hid
+  split at hid
+  · exact .inl hid
+  · dsimp only at hid
+    split at hid
+    · exact .inl hid
+    · rcases List.mem_cons.mp hid with e | h
+      · exact .inr e
+      · exact .inl h
+
 /-! ### non-vacuity: the D21 witness at the model level -/
 
 /-- a state in which trace 0 is active, its cancel is noted as parked, and its commit arrives -/
